@@ -36,6 +36,20 @@ pub struct Target {
     pub facts: HashMap<String, String>, pub fact_list: Vec<(String, String)>, pub tids: Vec<i32>, pub shared: std::fs::File, pub scen_path: String,
 }
 /// when set, targets are spawned from the copy of the target program that is linked at a fixed address (not position independent)
+/// when set, targets are started with address-space randomisation switched off (their stack then ends at the very top of user space)
+pub static NO_ASLR_TARGET: std::sync::atomic::AtomicBool = std::sync::atomic::AtomicBool::new(false);
+/// when set, the dump under test runs in a thread of its own that has first installed a seccomp filter refusing
+/// process_vm_readv (ENOSYS) and pread64 (EPERM): a sandboxed crash reporter, whose memory reads fall back to PTRACE_PEEKDATA
+pub static SANDBOXED_DUMPER: std::sync::atomic::AtomicBool = std::sync::atomic::AtomicBool::new(false);
+pub fn install_read_refusing_seccomp_filter() -> bool {
+    let f = |code: u16, jt: u8, jf: u8, k: u32| libc::sock_filter { code, jt, jf, k };
+    let prog = [ f(0x20, 0, 0, 0),                                   // A = syscall number
+                 f(0x15, 0, 1, libc::SYS_process_vm_readv as u32), f(0x06, 0, 0, 0x0005_0000 | libc::ENOSYS as u32),
+                 f(0x15, 0, 1, libc::SYS_pread64 as u32), f(0x06, 0, 0, 0x0005_0000 | libc::EPERM as u32),
+                 f(0x06, 0, 0, 0x7fff_0000) ];
+    let fprog = libc::sock_fprog { len: prog.len() as u16, filter: prog.as_ptr() as *mut libc::sock_filter };
+    unsafe { libc::prctl(libc::PR_SET_NO_NEW_PRIVS, 1, 0, 0, 0); libc::prctl(libc::PR_SET_SECCOMP, 2 /* SECCOMP_MODE_FILTER */, &fprog as *const _ as libc::c_ulong, 0, 0) == 0 }
+}
 pub static FIXED_ADDRESS_TARGET: std::sync::atomic::AtomicBool = std::sync::atomic::AtomicBool::new(false);
 static COUNTER: std::sync::atomic::AtomicUsize = std::sync::atomic::AtomicUsize::new(0);
 pub fn exe_dir() -> std::path::PathBuf { std::env::current_exe().unwrap().parent().unwrap().parent().unwrap().to_path_buf() }
@@ -48,7 +62,8 @@ impl Target {
         let tgt = exe_dir().join(if FIXED_ADDRESS_TARGET.load(std::sync::atomic::Ordering::SeqCst) { "tgt_nopie" } else { "tgt" });
         let mut c = Command::new(&tgt);
         c.arg(&scen_path).stdin(Stdio::piped()).stdout(Stdio::piped()).stderr(Stdio::null());
-        unsafe { c.pre_exec(|| { libc::prctl(libc::PR_SET_PDEATHSIG, libc::SIGKILL); libc::setpgid(0, 0); Ok(()) }); }
+        let no_aslr = NO_ASLR_TARGET.load(std::sync::atomic::Ordering::SeqCst);
+        unsafe { c.pre_exec(move || { libc::prctl(libc::PR_SET_PDEATHSIG, libc::SIGKILL); libc::setpgid(0, 0); if no_aslr { libc::personality(0x0040000 /* ADDR_NO_RANDOMIZE */); } Ok(()) }); }
         let mut child = c.spawn().map_err(|e| format!("spawn {tgt:?}: {e}"))?;
         let stdin = child.stdin.take().unwrap();
         let mut reader = BufReader::new(child.stdout.take().unwrap());
@@ -195,7 +210,14 @@ pub fn read_mem(pid: i32, addr: u64, len: usize) -> Option<Vec<u8>> {
     let f = std::fs::File::open(format!("/proc/{pid}/mem")).ok()?;
     let mut b = vec![0u8; len];
     let mut got = 0;
-    while got < len { match f.read_at(&mut b[got..], addr + got as u64) { Ok(0) => break, Ok(n) => got += n, Err(_) => break } }
+    // (preadv, not pread64: one stage runs its dump in a thread whose seccomp filter refuses pread64 and process_vm_readv - the
+    // harness's own view of the target must not depend on the calls that filter takes away from the writer)
+    use std::os::fd::AsRawFd;
+    while got < len {
+        let iov = libc::iovec { iov_base: b[got..].as_mut_ptr() as *mut libc::c_void, iov_len: len - got };
+        let n = unsafe { libc::preadv(f.as_raw_fd(), &iov, 1, (addr + got as u64) as libc::off_t) };
+        if n <= 0 { break; } got += n as usize;
+    }
     b.truncate(got); Some(b)
 }
 fn ptrace_regs(tid: i32) -> Option<libc::user_regs_struct> {
